@@ -6,6 +6,7 @@
 package webrtc
 
 import (
+	"math"
 	"strings"
 	"sync"
 
@@ -361,15 +362,13 @@ func (s *TrackLocalStaticSample) WriteSample(sample media.Sample) error {
 	tickF := sample.Duration.Seconds() * clockRate
 
 	if sample.PrevDroppedPackets > 0 {
-		dropTotal := tickF*float64(sample.PrevDroppedPackets) + remainder
-		dropTicks := uint32(dropTotal)
-		remainder = dropTotal - float64(dropTicks)
+		var dropTicks uint32
+		dropTicks, remainder = splitTicks(tickF*float64(sample.PrevDroppedPackets) + remainder)
 		packetizer.SkipSamples(dropTicks)
 	}
 
-	curTotal := tickF + remainder
-	curTicks := uint32(curTotal)
-	remainder = curTotal - float64(curTicks)
+	var curTicks uint32
+	curTicks, remainder = splitTicks(tickF + remainder)
 
 	s.remainder = remainder
 	packets := packetizer.Packetize(sample.Data, curTicks)
@@ -383,6 +382,15 @@ func (s *TrackLocalStaticSample) WriteSample(sample media.Sample) error {
 	}
 
 	return util.FlattenErrs(writeErrs)
+}
+
+// splitTicks splits a tick count into the whole ticks, modulo 2^32 because RTP timestamps wrap,
+// and the fraction of a tick that is carried over to the next sample. The fraction is taken from
+// the full value, so it stays below one tick even when the whole part does not fit a uint32.
+func splitTicks(total float64) (uint32, float64) {
+	whole, frac := math.Modf(total)
+
+	return uint32(math.Mod(whole, 1<<32)), frac
 }
 
 // GeneratePadding writes padding-only samples to the TrackLocalStaticSample
